@@ -281,6 +281,16 @@ CATALOGUE = [
     T("c12-minmax-clamp", "C12", CPYX,
       "            if expr > 1:\n                expr = 1\n            elif expr < -1:\n                expr = -1\n",
       "            expr = min(max(expr, -1), 1)\n"),
+    T("c12-clamp-helper", "C12", CPYX,
+      "            if expr > 1:\n                expr = 1\n            elif expr < -1:\n                expr = -1\n",
+      "            expr = _clamp_cos(expr)\n",
+      also=[(CPYX, "def _calculate_angular_distance(",
+             "cdef inline FIELD_t _clamp_cos(FIELD_t c) noexcept nogil:\n    if c > 1:\n        return 1\n    if c < -1:\n        return -1\n    return c\n\n\ndef _calculate_angular_distance(")]),
+    B("c12-clamp-helper-one-side", "C12", CPYX,
+      "            if expr > 1:\n                expr = 1\n            elif expr < -1:\n                expr = -1\n",
+      "            expr = _clamp_cos(expr)\n", "lower-clamp",
+      also=[(CPYX, "def _calculate_angular_distance(",
+             "cdef inline FIELD_t _clamp_cos(FIELD_t c) noexcept nogil:\n    if c > 1:\n        return 1\n    return c\n\n\ndef _calculate_angular_distance(")]),
     # ---------------- C10 / C15 / C16
     B("c10-float-index", "C10", "src/pyunicorn/funcnet/coupling_analysis.py",
       "lagfuncs[range(N), range(N), 0] = 0.", "lagfuncs[range(N), range(N), 0.] = 0.",
